@@ -27,12 +27,12 @@ const c16Watchdog = 20 * time.Second
 // legitimately wait (Direct with a full buffer, Next with nothing to read) the
 // context is cancelled after a short grace; the call must then return.
 type c16Result struct {
-	op      string
-	err     error
-	verdict vf.Verdict
-	dump    string
+	op        string
+	err       error
+	verdict   vf.Verdict
+	dump      string
 	cancelled bool
-	gotMsg  bool
+	gotMsg    bool
 }
 
 func c16Do(rc *announce.Receiver, op string, k int) c16Result {
@@ -299,130 +299,142 @@ func c16Pubsub(c *vf.Ctx) {
 		if !c.Mine(sub, i) || c16TooManyHangs() {
 			continue
 		}
-		r := c.Rand(sub, i)
 		c.Cur(sub, i, "")
-		hA, err1 := newHost()
-		hR, err2 := newHost()
-		if err1 != nil || err2 != nil {
-			c.Inconclusive(sub, i, "host-create", fmt.Sprint(err1, err2), nil)
-			continue
-		}
-		func() {
-			defer hA.Close()
-			defer hR.Close()
-			topicName := fmt.Sprintf("/verif/c16/%d/%d", c.Seed, i)
-			topics, cancelPS, err := meshTopics([]host.Host{hA, hR}, topicName)
-			if err != nil {
-				c.Inconclusive(sub, i, "mesh", err.Error(), nil)
-				return
+		// environment trouble (hosts, gossip mesh) is retried with fresh hosts before it counts as inconclusive
+		envTrouble := ""
+		for attempt := 0; attempt < 3; attempt++ {
+			envTrouble = ""
+			r := c.Rand(sub, i*10+attempt)
+			hA, err1 := newHost()
+			hR, err2 := newHost()
+			if err1 != nil || err2 != nil {
+				envTrouble = "host-create: " + fmt.Sprint(err1, err2)
+				continue
 			}
-			defer cancelPS()
-			delay := time.Duration(1+r.Intn(8)) * time.Millisecond
-			var inAllow atomic.Int64
-			allow := func(peer.ID) bool {
-				inAllow.Add(1)
-				time.Sleep(delay)
-				return true
-			}
-			ownTopic := r.Intn(2) == 0
-			var rc *announce.Receiver
-			if ownTopic {
-				rc, err = announce.NewReceiver(hR, topicName, announce.WithTopic(topics[1]), announce.WithAllowPeer(allow))
-			} else {
-				rc, err = announce.NewReceiver(hR, topicName, announce.WithTopic(topics[1]), announce.WithAllowPeer(allow), announce.WithResend(true))
-			}
-			if err != nil {
-				c.Inconclusive(sub, i, "receiver-create", err.Error(), nil)
-				return
-			}
-			snd, err := p2psender.New(nil, "", p2psender.WithTopic(topics[0]))
-			if err != nil {
-				c.Inconclusive(sub, i, "sender-create", err.Error(), nil)
-				return
-			}
-			col := collect(rc)
-			stop := make(chan struct{})
-			var pubWG sync.WaitGroup
-			pubWG.Add(1)
-			go func() {
-				defer pubWG.Done()
-				for k := 0; ; k++ {
-					select {
-					case <-stop:
-						return
-					default:
-					}
-					m := message.Message{Cid: c09Cid(800000 + 1000*i + k)}
-					m.SetAddrs([]multiaddr.Multiaddr{multiaddr.StringCast("/ip4/8.8.4.4/tcp/1/http")})
-					_ = snd.Send(context.Background(), m)
-					time.Sleep(2 * time.Millisecond)
-				}
-			}()
-			defer func() { close(stop); pubWG.Wait(); snd.Close() }()
-			// wait until gossip announcements actually flow into the receiver
-			deadline := time.Now().Add(45 * time.Second)
-			for len(col.snapshot()) < 2 && time.Now().Before(deadline) {
-				time.Sleep(5 * time.Millisecond)
-			}
-			if len(col.snapshot()) < 2 {
-				c.Inconclusive(sub, i, "mesh-not-formed", "no gossip announcement reached the receiver within 45 s", nil)
-				rc.Close()
-				return
-			}
-			nclose := 1 + r.Intn(3)
-			wit := func() any {
-				return map[string]any{"pubsub": true, "concurrent_closers": nclose, "allow_callback_delay": delay.String(), "resend": !ownTopic, "announcements_in_allow_callback_before_close": inAllow.Load()}
-			}
-			// start Close right after the watcher entered the allow callback (it is between its steps)
-			before := inAllow.Load()
-			for w := 0; w < 2000 && inAllow.Load() == before; w++ {
-				time.Sleep(200 * time.Microsecond)
-			}
-			var wg sync.WaitGroup
-			okAll := true
-			var mu sync.Mutex
-			for k := 0; k < nclose; k++ {
-				wg.Add(1)
-				go func(k int) {
-					defer wg.Done()
-					if !c16CheckResult(c, sub, i, []string{"Close while gossip announcements are being handled"}, k, c16Do(rc, "Close", k), false, wit) {
-						mu.Lock()
-						okAll = false
-						mu.Unlock()
-					}
-				}(k)
-			}
-			wg.Wait()
-			if !okAll {
-				return
-			}
-			for k, op := range []string{"Direct", "Next", "Uncache", "Close"} {
-				if !c16CheckResult(c, sub, i, []string{"after-close", op}, k, c16Do(rc, op, 50+k), true, wit) {
+			func() {
+				defer hA.Close()
+				defer hR.Close()
+				topicName := fmt.Sprintf("/verif/c16/%d/%d", c.Seed, i)
+				topics, cancelPS, err := meshTopics([]host.Host{hA, hR}, topicName)
+				if err != nil {
+					envTrouble = "mesh: " + err.Error()
 					return
 				}
-			}
-			var left []string
-			for try := 0; try < 100; try++ {
-				left = left[:0]
-				for _, g := range vf.LibGoroutines() {
-					if strings.Contains(g, "announce.(*Receiver).watch") {
-						left = append(left, g)
+				defer cancelPS()
+				delay := time.Duration(1+r.Intn(8)) * time.Millisecond
+				var inAllow atomic.Int64
+				allow := func(peer.ID) bool {
+					inAllow.Add(1)
+					time.Sleep(delay)
+					return true
+				}
+				ownTopic := r.Intn(2) == 0
+				var rc *announce.Receiver
+				if ownTopic {
+					rc, err = announce.NewReceiver(hR, topicName, announce.WithTopic(topics[1]), announce.WithAllowPeer(allow))
+				} else {
+					rc, err = announce.NewReceiver(hR, topicName, announce.WithTopic(topics[1]), announce.WithAllowPeer(allow), announce.WithResend(true))
+				}
+				if err != nil {
+					envTrouble = "receiver-create: " + err.Error()
+					return
+				}
+				snd, err := p2psender.New(nil, "", p2psender.WithTopic(topics[0]))
+				if err != nil {
+					envTrouble = "sender-create: " + err.Error()
+					return
+				}
+				col := collect(rc)
+				stop := make(chan struct{})
+				var pubWG sync.WaitGroup
+				pubWG.Add(1)
+				go func() {
+					defer pubWG.Done()
+					for k := 0; ; k++ {
+						select {
+						case <-stop:
+							return
+						default:
+						}
+						m := message.Message{Cid: c09Cid(800000 + 1000*i + k)}
+						m.SetAddrs([]multiaddr.Multiaddr{multiaddr.StringCast("/ip4/8.8.4.4/tcp/1/http")})
+						_ = snd.Send(context.Background(), m)
+						time.Sleep(2 * time.Millisecond)
+					}
+				}()
+				defer func() { close(stop); pubWG.Wait(); snd.Close() }()
+				// wait until gossip announcements actually flow into the receiver
+				deadline := time.Now().Add(45 * time.Second)
+				for len(col.snapshot()) < 2 && time.Now().Before(deadline) {
+					time.Sleep(5 * time.Millisecond)
+				}
+				if len(col.snapshot()) < 2 {
+					envTrouble = "mesh-not-formed: no gossip announcement reached the receiver within 45 s"
+					rc.Close()
+					return
+				}
+				nclose := 1 + r.Intn(3)
+				wit := func() any {
+					return map[string]any{"pubsub": true, "concurrent_closers": nclose, "allow_callback_delay": delay.String(), "resend": !ownTopic, "announcements_in_allow_callback_before_close": inAllow.Load()}
+				}
+				// start Close right after the watcher entered the allow callback (it is between its steps)
+				before := inAllow.Load()
+				for w := 0; w < 2000 && inAllow.Load() == before; w++ {
+					time.Sleep(200 * time.Microsecond)
+				}
+				var wg sync.WaitGroup
+				okAll := true
+				var mu sync.Mutex
+				for k := 0; k < nclose; k++ {
+					wg.Add(1)
+					go func(k int) {
+						defer wg.Done()
+						if !c16CheckResult(c, sub, i, []string{"Close while gossip announcements are being handled"}, k, c16Do(rc, "Close", k), false, wit) {
+							mu.Lock()
+							okAll = false
+							mu.Unlock()
+						}
+					}(k)
+				}
+				wg.Wait()
+				if !okAll {
+					return
+				}
+				for k, op := range []string{"Direct", "Next", "Uncache", "Close"} {
+					if !c16CheckResult(c, sub, i, []string{"after-close", op}, k, c16Do(rc, op, 50+k), true, wit) {
+						return
 					}
 				}
-				if len(left) == 0 {
-					break
+				var left []string
+				for try := 0; try < 100; try++ {
+					left = left[:0]
+					for _, g := range vf.LibGoroutines() {
+						if strings.Contains(g, "announce.(*Receiver).watch") {
+							left = append(left, g)
+						}
+					}
+					if len(left) == 0 {
+						break
+					}
+					time.Sleep(10 * time.Millisecond)
 				}
-				time.Sleep(10 * time.Millisecond)
+				if len(left) > 0 {
+					c.Fail(sub, i, "pubsub-watcher-still-running", left[0], wit())
+				}
+				c.Inc("pubsub_shutdowns")
+				c.Add("gossip_announcements_handled_before_close", inAllow.Load())
+				if c.WantSample(sub) {
+					c.Sample(sub, wit())
+				}
+			}()
+			if envTrouble == "" {
+				break
 			}
-			if len(left) > 0 {
-				c.Fail(sub, i, "pubsub-watcher-still-running", left[0], wit())
-			}
-			c.Inc("pubsub_shutdowns")
-			c.Add("gossip_announcements_handled_before_close", inAllow.Load())
-			if c.WantSample(sub) {
-				c.Sample(sub, wit())
-			}
-		}()
+			c.Inc("pubsub_attempts_retried")
+		}
+		if envTrouble != "" {
+			c.Inconclusive(sub, i, "pubsub-environment", envTrouble, nil)
+		}
 		c.Eval(1)
 		c.Distinct(sub, fmt.Sprint(i))
 	}
